@@ -22,6 +22,17 @@ def _body(rng, ints, writable, fn_in, fn_out, callees, allfuncs, nassert, want_l
             args = list(f["in"])
             if rng.random() < 0.5:
                 rng.shuffle(args)
+        # the SAME caller variable passed for several parameters, named like an EARLIER formal that itself receives another
+        # variable (foo(a,b,c) called as foo(k,a,a)): the parallel binding formal_i := actual_i has to read the caller's value of
+        # `a` at every later position
+        if len(f["in"]) >= 3 and rng.random() < 0.5:
+            v = f["in"][0]
+            other = rng.choice([u for u in ints if u != v])
+            args = [other] + [v] * (len(f["in"]) - 1)
+            if rng.random() < 0.3:
+                args[-1] = rng.choice(ints)
+        elif len(f["in"]) >= 2 and rng.random() < 0.15:
+            args = [rng.choice(ints)] * len(f["in"])        # one variable for every parameter
         lhs = rng.sample(writable, len(f["out"])) if len(writable) >= len(f["out"]) else None
         # outputs overwriting the arguments of the same call, in the order of the arguments (any index order)
         if lhs is not None and len(f["out"]) == len(args) and len(set(args)) == len(args) and all(a_ in writable for a_ in args) \
@@ -241,7 +252,7 @@ def program(rng, pid):
     funcs = {}
     order = ["f%d" % i for i in range(1, nf + 1)]
     for name in order:
-        nin = rng.choice([1, 1, 2])
+        nin = rng.choice([1, 1, 2, 2, 3])
         ins = rng.sample(ints, nin)
         free = [v for v in ints if v not in ins]
         outs = rng.sample(free, 2 if (len(free) >= 2 and rng.random() < 0.35) else 1)
